@@ -62,7 +62,7 @@ def gen_task(rng, o, nb, main):
         r = rng.random()
         if rng.random() < o['p_expect']:
             prog.append(['expect', rng.randrange(nb), rng.choice(['A', 'B', 'C', 'D', 'C', 'D', '*']), rng.choice([0, 0, 1, 2, 3, 4]),
-                         rng.choice([None, 5 / 128, 21 / 128, 67 / 128]), rng.choice([None, None, None, 3 / 128, 19 / 128])])
+                         rng.choice([None, 0, 5 / 128, 21 / 128, 67 / 128]), rng.choice([None, None, None, 3 / 128, 19 / 128])])
             continue
         if rng.random() < o['p_stop']:
             prog.append(['stop', rng.randrange(nb), rng.random() < 0.2])
